@@ -6,7 +6,7 @@
    writes for a byte-stable tree are parsed back into that tree), and both are chained (created_bytes_round_trip); the round
    trip of whole envelopes (digest steps, merged payload / text members) is decided by the differential check on every run. *)
 Require Import Coq.Strings.String.
-From Verif Require Import Base.Prim Base.Str Cbor.Codec Suit.Py Suit.PyFacts Suit.Ty Suit.Interp Suit.Tables Suit.Roundtrip Suit.Reparse Suit.Typed Suit.Stable Suit.ByteTrip Cbor.CodecFacts gen.GenTypes.
+From Verif Require Import Base.Prim Base.Str Cbor.Codec Suit.Py Suit.PyFacts Suit.Ty Suit.Interp Suit.Tables Suit.Roundtrip Suit.Reparse Suit.Typed Suit.Stable Suit.ByteTrip Suit.Idem Cbor.CodecFacts gen.GenTypes.
 Open Scope Z_scope.
 
 Theorem int_roundtrip env jd c f g : normal c -> check_int c = true ->
@@ -121,6 +121,38 @@ Proof.
       * intros n i Hin. cbn [In] in Hin. destruct Hin as [E|[E|[E|[E|[E|[]]]]]]; injection E as _ <-; lia.
     + eexists. split; [vm_compute; reflexivity|]. eapply b_ref; [vm_compute; reflexivity|]. apply b_hex. reflexivity.
 Qed.
+
+(* WHOLE ENVELOPES — the statement of the property.  create reads the description, recomputes the digests
+   (update_severable_digests, then update_digest) and encodes; if the tree it encodes is stable at both levels, then for the
+   bytes b it writes:  parse b shows a description o, and create o writes b AGAIN — byte for byte, digests included.
+   Recomputing the digests of an envelope whose digests were just computed changes nothing (Suit/Idem.v), the parser rebuilds
+   the encoded tree (Suit/ByteTrip.v), and what parse shows is read back as that tree (Suit/Reparse.v). *)
+Theorem recomputing_digests_changes_nothing env hn H sev tc root e e2 :
+  NoDup sev -> (forall sid, In sid sev -> sid <> 2 /\ sid <> 3) ->
+  apply_steps env hn H sev tc root [1; 2] e = Ok e2 -> apply_steps env hn H sev tc root [1; 2] e2 = Ok e2.
+Proof. intros Hnd Hsev. exact (Idem.apply_steps_idempotent env hn H sev Hnd Hsev tc root e e2). Qed.
+Print Assumptions recomputing_digests_changes_nothing.
+
+Theorem created_envelopes_round_trip env hn H u5 fs jl jd sev sp sd f desc b tg name t' :
+  NoDup sev -> (forall sid, In sid sev -> sid <> 2 /\ sid <> 3) ->
+  lookup (s2b "SuitEnvelopeTagged") env = Some (TTag tg name t') ->
+  create env hn H u5 fs jl jd sev [1; 2] sp sd f desc = Ok b ->
+  (* the tree that create encoded is stable at the byte level and at the description level *)
+  (forall v0 v1, from_obj env hn H u5 fs jl jd sev sp sd f (TRef (s2b "SuitEnvelopeTagged")) desc = Ok v0 ->
+                 apply_steps env hn H sev (fun t0 x => to_cbor env f t0 x) (s2b "SuitEnvelopeTagged") [1; 2] v0 = Ok v1 ->
+                 bst env jd (TRef (s2b "SuitEnvelopeTagged")) v1 /\ st env hn H u5 fs jl jd sev sp sd (TRef (s2b "SuitEnvelopeTagged")) v1) ->
+  forall o, parse env jd f (s2b "SuitEnvelopeTagged") b = Ok o ->
+  create env hn H u5 fs jl jd sev [1; 2] sp sd f o = Ok b.
+Proof.
+  intros Hnd Hsev Hroot Hc Hstable o Hp. unfold create in Hc.
+  destruct (from_obj env hn H u5 fs jl jd sev sp sd f (TRef (s2b "SuitEnvelopeTagged")) desc) as [v0|] eqn:E0; cbn [bind] in Hc; [|discriminate].
+  destruct (apply_steps env hn H sev (fun t0 x => to_cbor env f t0 x) (s2b "SuitEnvelopeTagged") [1; 2] v0) as [v1|] eqn:E1; cbn [bind] in Hc; [|discriminate].
+  destruct (Hstable v0 v1 eq_refl E1) as [Hb Hs].
+  pose proof (ByteTrip.encode_then_parse env jd f _ v1 b Hb Hc (ByteTrip.tagged_not_bytes env jd f _ tg name t' v1 b Hroot Hb Hc)) as Hfc.
+  rewrite (Reparse.parse_then_create env hn H u5 fs jl jd sev sp sd [1; 2] f _ b o v1 Hfc Hs Hp eq_refl).
+  rewrite (Idem.apply_steps_idempotent env hn H sev Hnd Hsev _ _ v0 v1 E1). cbn [bind]. exact Hc.
+Qed.
+Print Assumptions created_envelopes_round_trip.
 
 (* every tree the parser builds from a string of real bytes meets the SYNTACTIC conditions of stability (pst: scalars of the right
    kind, byte strings of real bytes, named tuples with the values their member list allows, no repeated members, pairwise different
